@@ -41,7 +41,9 @@ RULE = ("ops spec_eval (BitcoinVM.eval_script: verdict and final stack) and spec
 ASSUMPTIONS = [
     "sig-oracle computed by the implementation: CheckSig(sig, pubkey, scriptCode, sigversion) inside the spec is answered by harness/c03spec.py "
     "from pycoin's signature hash (_signature_hash / _signature_for_hash_type_segwit, property C04) and pycoin's ECDSA verify (property C01); "
-    "DER lax parsing and public-key parsing of the oracle are independent ports of Core / libsecp256k1 rules",
+    "DER lax parsing and public-key parsing of the oracle are independent ports of Core / libsecp256k1 rules; every answer of the oracle is "
+    "recomputed on every run by the Lean spec (Spec/Secp256k1.lean: key parsing, lax DER, ECDSA over secp256k1) from the same signature hash, "
+    "so of the oracle only the signature hash itself remains 'computed by the implementation'",
     "the Lean spec is my rendering of Bitcoin Core's interpreter.cpp (0.13-0.15 vintage, the one pycoin's vectors come from), validated on every "
     "run by script_tests.json (1205 entries incl. error codes), tx_valid.json (120) and tx_invalid.json (80)",
     "single-script evaluation in the base sigversion is observed as SolutionChecker does it (MINIMALIF and WITNESS_PUBKEYTYPE removed from the flags)",
@@ -169,6 +171,7 @@ def validate_spec(ctx):
         for c in allc:
             c.flags = norm(c.flags)
         S.resolve(allc)
+        S.cross_check_oracle()
         txcases += allc
         n_tx[name] = len(tvs)
         for cc, tx, txhex in tvs:
@@ -192,10 +195,28 @@ def validate_spec(ctx):
         mine = "fail" if r is None else "ok %d %d" % r
         if mine != o:
             bad.append("lax DER port differs from the spec on %s: %s vs %s" % (b.hex(), mine, o))
+    # the vectors' script text is parsed by an own port of Core's ParseScript; how often does pycoin's compiler read it the same way?
+    same_text = diff_text = 0
+    import json as _json
+    for e in _json.loads((S.DATA / "script_tests.json").read_text()):
+        if len(e) < 4:
+            continue
+        if isinstance(e[0], list):
+            e = e[1:]
+        for text in e[:2]:
+            try:
+                theirs = BTC.script.compile(text)
+            except Exception:  # noqa: BLE001
+                theirs = None
+            if theirs == S.parse_core_script(text):
+                same_text += 1
+            else:
+                diff_text += 1
     if bad:
         raise Infra("consensus spec does not reproduce Core's vectors (%d mismatches): %s" % (len(bad), " || ".join(bad[:5])))
     ctx.extra_cov["spec_validation"] = {"script_tests": len(cs), "tx_valid": n_tx["tx_valid.json"], "tx_invalid": n_tx["tx_invalid.json"],
                                         "tx_invalid_rejected_by_CheckTransaction_only": by_check_tx, "lax_der_cross_checks": len(blobs),
+                                        "script_texts_parsed_like_pycoin_compile": same_text, "script_texts_parsed_differently": diff_text,
                                         "mismatches": 0}
     return [c for c, _, _ in cs], txcases
 
@@ -1299,6 +1320,8 @@ def line_coverage(ops):
 # ---------------------------------------------------------------------------------------------- gen
 def _emit_cases(cases, emit, ctx):
     S.resolve(cases)
+    S.cross_check_oracle()
+    ctx.extra_cov["sig_oracle_answers_recomputed_in_lean"] = {"answers": S.XCHECK_DONE[0], "true": S.XCHECK_DONE[1]}
     for c in cases:
         op = c.line()
         if op in CASES:
